@@ -45,7 +45,7 @@ for c in checks:
     r = subprocess.run([f"{V}/check", c], cwd=V, capture_output=True, text=True)
     if r.returncode != 0:
         print(f"WARNING: ./check {c} is not quiet on the clean tree after adding the corpus entry:", r.stdout[-400:])
-meta = {"property": prop, "origin": "fresh sub-agent given only the property text and a scratch worktree (round 5)",
+meta = {"property": prop, "origin": "fresh sub-agent given only the property text and a scratch worktree (round 5 or later)",
         "what": what, "needs_to_manifest": needs,
         "confirmed_by_me": {"how": "tools/confirm_mutant.sh in the scratch worktree", "result": confirm},
         "detected_by": detected,
